@@ -80,8 +80,8 @@ type mgEnv struct {
 	params  map[string]bool // callback parameters
 	// per callback
 	deferSeen bool
-	assigned  map[string]bool // locals assigned so far in this callback
-	obsParams map[string]bool // callback parameters of type Observable[..]: values that stand for an inner source
+	assigned  map[string]bool         // locals assigned so far in this callback
+	obsParams map[string]bool         // callback parameters of type Observable[..]: values that stand for an inner source
 	helpers   map[string]*ast.FuncLit // local closures `h := func() {…}`, inlined at their calls
 	inlining  map[string]bool
 	dyn       map[string]mgReact // the callbacks handed to the inner sources (higher-order operators)
@@ -93,8 +93,8 @@ type mgReact struct {
 	body  string
 }
 
-func (e *mgEnv) stName() string   { return e.op + "St" }
-func (e *mgEnv) lensName() string { return lowerFirstMG(e.op) + "L" }
+func (e *mgEnv) stName() string    { return e.op + "St" }
+func (e *mgEnv) lensName() string  { return lowerFirstMG(e.op) + "L" }
 func lowerFirstMG(s string) string { return strings.ToLower(s[:1]) + s[1:] }
 
 func mgLit(x ast.Expr) (string, bool) {
@@ -169,6 +169,7 @@ func mgIdent(n string) string {
 	}
 	return n
 }
+
 // fields are named by position (v0, v1, … in declaration order; `comp` for the composite subscription), so that a
 // rename of a Go local regenerates the same text
 var mgFieldOf = map[string]string{}
